@@ -37,8 +37,8 @@ MOD = __name__
 def tasks(tier, seed):
     t = []
     plan = (
-        [(3, a, u) for a in range(4) for u in ("range", "any")]
-        + [(4, a, "range") for a in range(4)]
+        [(3, a, u) for a in range(5) for u in ("range", "any")]
+        + [(4, a, "range") for a in range(5)]
         + ([] if tier == "quick" else [(5, a, "range") for a in range(4)] + [(4, a, "any") for a in range(4)])
     )
     for k, a, u in plan:
